@@ -235,6 +235,9 @@ pub struct E2eCase {
     /// write the document in Cram format (single-script execution, combined stream)
     #[serde(default)]
     pub cram: bool,
+    /// front-matter `defaults: {output_stream: ..}`: 0 none, 1 stdout, 2 stderr, 3 combined
+    #[serde(default)]
+    pub doc_stream: u8,
 }
 
 const PAYLOAD: &[&str] = &["alpha", "beta", "gamma delta", "", "x y z", "ünï"];
@@ -269,14 +272,14 @@ fn e2e_strategy() -> BoxedStrategy<E2eCase> {
                 mut_line,
             }
         });
-    (vec(t, 1..=4), proptest::bool::weighted(0.2))
-        .prop_map(|(mut tests, cram)| {
+    (vec(t, 1..=4), proptest::bool::weighted(0.2), prop_oneof![3 => Just(0u8), 1 => Just(1u8), 2 => Just(2u8), 2 => Just(3u8)])
+        .prop_map(|(mut tests, cram, doc_stream)| {
             if cram {
                 for t in tests.iter_mut() {
                     t.stream = 3; // Cram: always the combined stream, no inline configuration
                 }
             }
-            E2eCase { tests, cram }
+            E2eCase { tests, cram, doc_stream: if cram { 0 } else { doc_stream } }
         })
         .boxed()
 }
@@ -287,6 +290,12 @@ fn check_e2e(c: &E2eCase) -> V {
         Err(e) => return inconclusive(&format!("scratch dir: {e}")),
     };
     let mut doc = if c.cram { String::new() } else { String::from("# C05 end to end\n\n") };
+    if c.doc_stream != 0 {
+        doc = format!(
+            "---\ndefaults:\n  output_stream: {}\n---\n\n{doc}",
+            ["", "stdout", "stderr", "combined"][c.doc_stream as usize]
+        );
+    }
     // model
     let mut expected_kinds: Vec<&'static str> = vec![];
     let mut dead = false; // a previous command was killed by a signal: nothing after it runs
@@ -303,8 +312,10 @@ fn check_e2e(c: &E2eCase) -> V {
             2 => " {output_stream: stderr}",
             _ => " {output_stream: combined}",
         };
+        // the stream in force: inline configuration, else the document default, else stdout
+        let in_force = if t.stream != 0 { t.stream } else { c.doc_stream };
         // sequential writers => write order is defined also for the combined stream
-        let selected: Vec<String> = match t.stream {
+        let selected: Vec<String> = match in_force {
             2 => t.err.clone(),
             3 => t.out.iter().chain(t.err.iter()).cloned().collect(),
             _ => t.out.clone(),
@@ -378,9 +389,11 @@ fn check_e2e(c: &E2eCase) -> V {
     let v = V::pass()
         .nt(any_signal
             || c.tests.iter().any(|t| t.stream >= 2)
+            || c.doc_stream >= 2
             || expected_kinds.contains(&"invalid_exit_code"))
         .label_if(any_signal, "signal_killed_command")
         .label_if(c.cram, "cram")
+        .label_if(c.doc_stream != 0 && c.tests.iter().any(|t| t.stream != 0 && t.stream != c.doc_stream), "stream_set_in_document_and_test")
         .label_if(expected_kinds.contains(&"invalid_exit_code"), "wrong_exit_code")
         .label_if(expected_kinds.contains(&"malformed_output"), "malformed_output")
         .label_if(expected_kinds.iter().all(|k| *k == "success"), "all_pass");
